@@ -926,4 +926,59 @@ theorem sgInv2_reachable (n waiters : Nat) (script : List Step) (s : SgS)
   cases a <;> simp only [sgStep] at hs' <;> (repeat' split at hs') <;>
     first | (cases hs'; exact hn) | (simp at hs')
 
+/-! ## Producer.Launch -/
+
+def PlInv (s : PlS) : Prop :=
+  s.delivered + (if s.bg = .inFn then 0 else 1) ≤ s.finished ∧ ∀ r ∈ s.rets, r.idx + 1 ≤ r.fin
+
+theorem plInv_step (s : PlS) (a : PlA) (s' : PlS) (h : PlInv s) (hs : plStep s a = some s') : PlInv s' := by
+  obtain ⟨h1, h2⟩ := h
+  cases a with
+  | fnEnd =>
+    by_cases hb : s.bg = .inFn
+    · simp only [hb, if_true] at h1
+      rcases hp : popStep s.script with ⟨st, rest⟩
+      cases hr : st.res with
+      | panic p => simp [plStep, hb, hp, hr] at hs
+      | ret v e =>
+        simp only [plStep, hb, if_true, hp, hr] at hs
+        split at hs
+        · cases hs; exact ⟨by simp; omega, h2⟩
+        · split at hs
+          · cases hs; exact ⟨by simp [hb]; omega, h2⟩
+          · split at hs <;> (cases hs; exact ⟨by simp; omega, h2⟩)
+    · simp [plStep, hb] at hs
+  | recv =>
+    cases hb : s.bg with
+    | sending v =>
+      simp only [hb] at h1
+      by_cases hw : s.waiting = 0
+      · simp [plStep, hb, hw] at hs
+      · simp only [plStep, hb, hw, if_false, Option.some.injEq] at hs; subst hs
+        refine ⟨by simp at h1 ⊢; omega, ?_⟩
+        intro r hr
+        simp only [List.mem_cons] at hr
+        rcases hr with hr | hr
+        · subst hr; simp at h1 ⊢; omega
+        · exact h2 r hr
+    | _ => simp [plStep, hb] at hs
+  | recvClosed =>
+    cases hb : s.bg with
+    | closed e =>
+      simp only [hb] at h1
+      by_cases hw : s.waiting = 0
+      · simp [plStep, hb, hw] at hs
+      · simp only [plStep, hb, hw, if_false, Option.some.injEq] at hs; subst hs
+        refine ⟨by simp [hb] at h1 ⊢; omega, ?_⟩
+        intro r hr
+        simp only [List.mem_cons] at hr
+        rcases hr with hr | hr
+        · subst hr; simp at h1 ⊢; omega
+        · exact h2 r hr
+    | _ => simp [plStep, hb] at hs
+
+theorem plInv_reachable (waiters : Nat) (script : List Step) (s : PlS)
+    (h : plM.Reachable (plInit waiters script) s) : PlInv s :=
+  Machine.inv_reachable plM PlInv _ (by simp [PlInv, plInit]) (fun s a s' hP hs => plInv_step s a s' hP hs) s h
+
 end FunModel.WrapConc
